@@ -17,6 +17,7 @@ from .data import (
     Constant,
     DataLabel,
     DebugInfo,
+    HERAError,
     Label,
     Messages,
     Program,
@@ -32,6 +33,7 @@ from .op import (
     DebuggingOperation,
     RegisterBranch,
     RelativeBranch,
+    disassemble,
 )
 from .utils import out_of_range
 
@@ -104,7 +106,7 @@ def typecheck(
 
         # Some modes (e.g., interpreting and debugging) don't support interrupt
         # instructions as their behavior is not defined by the HERA manual.
-        if not settings.allow_interrupts and isinstance(op, (RTI, SWI)):
+        if not settings.allow_interrupts and is_interrupt(op, symbol_table):
             messages.err("hera-py does not support {}".format(op.name), loc=op.loc)
 
         if settings.no_debug_ops and isinstance(op, DebuggingOperation):
@@ -289,6 +291,26 @@ def labels_to_line_numbers(oplist: "List[AbstractOperation]") -> "Dict[str, str]
         if isinstance(op, LABEL):
             labels[op.args[0]] = "{0.path}:{0.line}".format(op.loc)
     return labels
+
+
+def is_interrupt(op: AbstractOperation, symbol_table: "Dict[str, int]") -> bool:
+    """Is the operation SWI or RTI, written directly or as an OPCODE word?"""
+    if isinstance(op, (RTI, SWI)):
+        return True
+
+    if op.name == "OPCODE" and len(op.tokens) == 1:
+        word = op.args[0]
+        if op.tokens[0].type == Token.SYMBOL:
+            word = symbol_table.get(word)
+            if not isinstance(word, Constant):
+                return False
+        elif op.tokens[0].type != Token.INT:
+            return False
+
+        with suppress(HERAError):
+            return isinstance(disassemble(word), (RTI, SWI))
+
+    return False
 
 
 def looks_like_a_CONSTANT(op: AbstractOperation) -> bool:
